@@ -343,11 +343,25 @@ def _terminal_files(ctx, sync, graph, loop):
         if isinstance(sub, ast.Assign) and isinstance(sub.targets[0],
                                                       ast.Name):
             defs[sub.targets[0].id] = N.txt(sub.value)
-    ok = any('apps_dir' in defs.get('data_dir', '') and
-             "'data'" in defs.get('data_dir', '') for _t in tests)
+    # the directory tested, whatever the local is called: <apps>/<c>/data
+    ok = any('apps_dir' in K.rtxt(sync, t.ast) and
+             "'data'" in K.rtxt(sync, t.ast) for t in tests
+             if t.ast is not None)
     ctx.ob('C13.3', sync, tests[0] if tests else None, ok,
            "the files are looked up in that container's data directory",
            construct='terminal file directory')
+
+
+def _cache_map(sync):
+    """The local holding {instance: container the cache names}: a dict
+    comprehension over the cache directory listing."""
+    for sub in K.walk_no_nested(sync.node):
+        if isinstance(sub, ast.Assign) and len(sub.targets) == 1 and \
+                isinstance(sub.targets[0], ast.Name) and \
+                isinstance(sub.value, ast.DictComp) and \
+                'cache_dir' in K.rtxt(sync, sub.value):
+            return sub.targets[0].id
+    return 'cached'
 
 
 def _keep_running(ctx, acm, sync, graph, loop, cvar, ksync):
@@ -355,15 +369,16 @@ def _keep_running(ctx, acm, sync, graph, loop, cvar, ksync):
     body = K.loop_body_nodes(loop)
     terms = [n for n, c in K.nodes_calling(
         graph, lambda c: K.is_meth(c, '_terminate')) if n in body]
+    cmap = _cache_map(sync)
     for node in terms:
         def differs(edge):
             for atom in nz.facts_of_edge(edge):
                 key = atom.key
-                if key[0] == 'in' and not key[3] and key[2] == 'cached':
+                if key[0] == 'in' and not key[3] and key[2] == cmap:
                     return True
                 if key[0] == 'cmp' and key[1] == '!=' and \
                         cvar in [t for t, _c in key[2]] and any(
-                            t.startswith('cached[') for t, _c in key[2]):
+                            t.startswith(cmap + '[') for t, _c in key[2]):
                     return True
             return False
         ctx.ob('C13.4', sync, node, K.guarded_by(graph, node, differs,
@@ -469,12 +484,13 @@ def _running_owner(ctx, acm):
 def _nothing_dropped(ctx, sync, graph, loop, cvar):
     nz = N.Normaliser()
     body = K.loop_body_nodes(loop)
+    cmap = _cache_map(sync)
     pops = [n for n, c in K.nodes_calling(
-        graph, lambda c: K.is_meth(c, 'pop') and K.recv_text(c) == 'cached')
+        graph, lambda c: K.is_meth(c, 'pop') and K.recv_text(c) == cmap)
         if n in body]
     pops += [n for n in body if n.kind == 'stmt' and
              isinstance(n.ast, ast.Delete) and
-             'cached[' in N.txt(n.ast)]
+             cmap + '[' in N.txt(n.ast)]
     ctx.require(pops, 'removal from the to-configure map')
 
     def accounted(edge):
@@ -482,7 +498,7 @@ def _nothing_dropped(ctx, sync, graph, loop, cvar):
             key = atom.key
             if key[0] == 'cmp' and key[1] == '==' and \
                     cvar in [t for t, _c in key[2]] and any(
-                        t.startswith('cached[') for t, _c in key[2]):
+                        t.startswith(cmap + '[') for t, _c in key[2]):
                 return True
             if key[0] == 'truth' and key[2] and 'cleanup_dir' in key[1] \
                     and 'exists' in key[1]:
@@ -497,7 +513,7 @@ def _nothing_dropped(ctx, sync, graph, loop, cvar):
                'the cache entry is dropped although it names another '
                'generation: the placed instance would never be configured')
     finals = [n for n in graph.nodes if n.kind == 'for' and n is not loop
-              and n not in body and 'cached' in N.txt(n.ast.iter)]
+              and n not in body and cmap in N.mentions(n.ast.iter)]
     ctx.ob('C13.7', sync, finals[0] if finals else None,
            len(finals) == 1 and not finals[0].ast.iter is None,
            'a final loop ranges over everything left in the map',
